@@ -538,7 +538,8 @@ enum { OP_RESIZE0, OP_COPY, OP_ASSIGN_EMPTY, OP_ASSIGN_FULL, OP_NEW_ARGS, OP_SET
        OP_B_COPY, OP_B_ASSIGN_FROM_A, OP_A_ASSIGN_FROM_B, OP_B_DEL, OP_B_SET, OP_B_REM, OP_SWAP,
        OP_F_GET_WRONGKEY, OP_F_SET_WRONGKEY, OP_F_SET_WRONGVAL, OP_F_REM_WRONGKEY, OP_F_MEM_WRONGKEY,
        OP_F_GET_NULL, OP_F_SET_NULLKEY, OP_F_SET_NULLVAL, OP_F_REM_NULL, OP_F_MEM_NULL,
-       OP_F_RESIZE1, OP_F_RESIZELEN, OP_F_RESIZEBIG,
+       OP_F_RESIZE1, OP_F_RESIZELEN, OP_F_RESIZEBIG, OP_F_ASSIGN_INT, OP_F_ASSIGN_STR, OP_F_ASSIGN_FLOAT,
+       OP_F_LAST = OP_F_ASSIGN_FLOAT,
        OP_X_EMPTY0, OP_X_EMPTY1, OP_X_EMPTY2, OP_X_FULL0, OP_X_FULL1, OP_X_FULL2, OP_B_X0, OP_B_X1, OP_B_X2, OP_VIA_TABLE,
        OP_NMISC };
 
@@ -546,7 +547,7 @@ static const char* miscname[] = { "resize(0)", "A=copy(A)", "A=assign(new,A)", "
     "B=copy(A)", "assign(B,A)", "assign(A,B)", "del(B)", "set(B,k0,v)", "rem(B,k0)", "swap(A,B)",
     "get(wrong-type key)", "set(wrong-type key)", "set(wrong-type val)", "rem(wrong-type key)", "mem(wrong-type key)",
     "get(NULL)", "set(NULL,v)", "set(k0,NULL)", "rem(NULL)", "mem(NULL)",
-    "resize(1)", "resize(len)", "resize(len+7)",
+    "resize(1)", "resize(len)", "resize(len+7)", "assign(A, $I(5))", "assign(A, $S(\"xy\"))", "assign(A, $F(1.0))",
     xname[0], xname[1], xname[2], xname[3], xname[4], xname[5], xname[6], xname[7], xname[8], xname[9] };
 
 static int misctab[OP_NMISC]; static int nmisc;
@@ -575,7 +576,7 @@ static void build_alphabet(void) {
     if (propC10) misctab[nmisc++] = OP_SWAP;
     if (cross_op) for (int j = 0; j < nforeign; j++) misctab[nmisc++] = OP_B_X0 + j;
   }
-  if (propC12) for (int o = OP_F_GET_WRONGKEY; o < OP_NMISC; o++) misctab[nmisc++] = o;
+  if (propC12) for (int o = OP_F_GET_WRONGKEY; o <= OP_F_LAST; o++) misctab[nmisc++] = o;
 }
 
 static int nops_total(void) { return NV * K + K + nmisc; }
@@ -829,6 +830,13 @@ static int apply_inner(int op) {
     kind("mem-null-key");
     e = VF_CATCH(mem(TA, NULL));
     return expect_fail(e, ValueError, ValueError, ValueError, "mem(NULL)", before, lb);
+  case OP_F_ASSIGN_INT: case OP_F_ASSIGN_STR: case OP_F_ASSIGN_FLOAT: {
+    /* a source that is no container at all (no Iter, no Get): refused with ClassError, and
+    ** refused before the target is cleared */
+    kind(m == OP_F_ASSIGN_INT ? "assign-from-Int" : m == OP_F_ASSIGN_STR ? "assign-from-String" : "assign-from-Float");
+    var src = m == OP_F_ASSIGN_INT ? (var)$I(5) : m == OP_F_ASSIGN_STR ? (var)$S("xy") : (var)$F(1.0);
+    e = VF_CATCH(assign(TA, src));
+    return expect_fail(e, ClassError, ClassError, ClassError, "assign(tree, object that is not a container)", before, lb); }
   case OP_F_RESIZE1: case OP_F_RESIZELEN: case OP_F_RESIZEBIG: {
     /* Tree documents that it can only be resized to 0.  C12 only says how a request the
     ** container cannot honour is reported, so: if it raises, the exception must come from
